@@ -100,6 +100,7 @@ func runLive(seed int64, idx int, opts map[string]string) ([]map[string]any, boo
 		base int
 	}
 	var blks []blk
+	settled := map[int]bool{}
 	pause := func() { time.Sleep(time.Duration(r.Intn(160)) * time.Millisecond) }
 	steps := 6 + r.Intn(8)
 	for s := 0; s < steps; s++ {
@@ -133,6 +134,9 @@ func runLive(seed int64, idx int, opts map[string]string) ([]map[string]any, boo
 			if err := w.recvLight(st); err != nil {
 				l.mu.Unlock()
 				return nil, false, err
+			}
+			if !contains(w.h.Pending(), w.conc.blocks[id].hash) {
+				settled[id] = true // posted or dropped at receipt: no later request can be outstanding
 			}
 			for _, k := range lay {
 				if k != "S" {
@@ -173,18 +177,43 @@ func runLive(seed int64, idx int, opts map[string]string) ([]map[string]any, boo
 	}
 	l.mu.Lock()
 	defer l.mu.Unlock()
-	if err := l.observe(); err != nil {
-		return nil, false, err
-	}
-	pend := map[string]bool{}
-	w.mu.Lock()
+	// a block leaves the pending list inside buildPendList, its request is published by the loop a
+	// moment later: poll until every block is accounted for (or report it as lost after the deadline)
 	var fin []any
-	for id := 1; id <= len(w.conc.blocks); id++ {
-		fin = append(fin, w.statusOf(w.conc.blocks[id], pend))
+	lostDeadline := time.Now().Add(60 * time.Second)
+	for {
+		if err := l.observe(); err != nil {
+			return nil, false, err
+		}
+		pend := map[string]bool{}
+		for _, h := range w.h.Pending() {
+			pend[h] = true
+		}
+		fin = fin[:0]
+		lost := false
+		w.mu.Lock()
+		for id := 1; id <= len(w.conc.blocks); id++ {
+			st := w.statusOf(w.conc.blocks[id], pend)
+			lost = lost || (st == "lost" && !settled[id])
+			fin = append(fin, st)
+		}
+		w.mu.Unlock()
+		if !lost || time.Now().After(lostDeadline) {
+			break
+		}
+		time.Sleep(10 * time.Millisecond)
 	}
-	w.mu.Unlock()
 	l.log(map[string]any{"ev": "Final", "st": fin})
 	return l.events, nontrivial, nil
+}
+
+func contains(l []string, x string) bool {
+	for _, y := range l {
+		if y == x {
+			return true
+		}
+	}
+	return false
 }
 
 func toAny(s []string) []any {
